@@ -18,7 +18,7 @@ func init() {
 		ID:       "C03",
 		Title:    "RoaringBitmap behaves as a set of uint32 with complete ascending enumeration",
 		Quick:    700,
-		Thorough: 30000,
+		Thorough: 8000,
 		Gen:      gen,
 		Corpus:   corpus,
 		Impl:     impl,
@@ -29,6 +29,7 @@ func init() {
 		},
 		Rule:     "op sequences (add/rm/has/len/fill/drain/range/all/iter) on a zero-value RoaringBitmap, values concentrated on 1–4 high-16-bit buckets, bucket fill levels steered around 4094–4099; non-trivial = the sequence enumerates ≥ 2 buckets or a bucket taken across the 4096 threshold; distinct by hash of the op list",
 		Classify: classify,
+		Facts:    facts,
 		Parallel: true,
 		Assumptions: []string{
 			"Go int treated as unbounded (Len)",
